@@ -440,3 +440,24 @@ def finish(ctx: Ctx, level: str, checker_cmd: str, rule: str, explanation: str =
     if rc == 0:
         print(f"OK property={ctx.pid} tier={ctx.tier} obligations={n_ok}/{n_ob} evaluations={cov['evaluations']} wall={ev['wall_s']}s")
     return rc
+
+
+def safe_workers(want):
+    """Number of forked worker processes that fits into memory: a forked child shares the parent's pages copy-on-write, but CPython's reference
+    counts touch most of them, so each child can grow to the parent's resident size.  Cap the pool so that workers x (parent RSS + 0.6 GB) stays
+    below 70 % of the memory available now (a thorough-tier check holding thousands of traces was killed by the kernel otherwise)."""
+    try:
+        rss = 0
+        for line in open("/proc/self/status"):
+            if line.startswith("VmRSS:"):
+                rss = int(line.split()[1]) * 1024
+        avail = 0
+        for line in open("/proc/meminfo"):
+            if line.startswith("MemAvailable:"):
+                avail = int(line.split()[1]) * 1024
+        if rss and avail:
+            fit = int(0.7 * avail / (rss + 0.6 * 2 ** 30))
+            return max(2, min(int(want), fit))
+    except Exception:
+        pass
+    return int(want)
